@@ -131,7 +131,7 @@ def rule_nonempty(ctx, M):
             c = t["callee"]
             if c.get("name") not in ("index", "index_mut") or not c.get("generic_args"):
                 continue
-            if c["generic_args"][0] != evalmodel.ENTRY_VEC:
+            if c["generic_args"][0] != M.entry_vec_ty:
                 continue
             sites += 1
             vec_t = P.strip(pr.operand(t["args"][0]))
@@ -171,7 +171,7 @@ def rule_nonempty(ctx, M):
                         if name == "all" and kind == "nonempty" and tr is True:
                             edges.append((b, lab))
             if edges and I.guarded_by(fn, bi, edges):
-                ctx.ok(rule, {"fn": fn.path, "site": f"index into {evalmodel.ENTRY_VEC}", "guard_edges": len(edges)},
+                ctx.ok(rule, {"fn": fn.path, "site": f"index into {M.entry_vec_ty}", "guard_edges": len(edges)},
                        sample=True)
             else:
                 ctx.violation(rule, f"{fn.path}|entry-index-unguarded",
